@@ -177,6 +177,8 @@ def step (line : String) : String :=
     | none => "bad-op"
   | "doc_dec" :: toks => docDec toks
   | "key_dec" :: toks => keyDec toks
+  | "doc_text" :: toks => docText toks
+  | "writetext" :: toks => writeText toks
   | ["rfc3339", h] => runRfc3339 h
   | ["fmttime", a, b] => runFmtTime a b
   | "rule_dec" :: toks =>
